@@ -44,11 +44,14 @@ def run(tier):
         # one case in 97 is replayed with every channel cloned 260 times (more than 255 objects per segment)
         run_config(chk, module, cfg, ov,
                    lambda rec, i: {"rec": rec, "seed": chk.seed, "modes": modes, "rot": (i + chk.seed) % rots,
-                                   "widen": 260 if (i + chk.seed) % 97 == 0 else 0},
+                                   "widen": 260 if (i + chk.seed) % 97 == 0 else 0,
+                                   # the DAQmx twin of the same encoded file (one raw buffer and scaler per channel)
+                                   "daqmx": (i + chk.seed) % 97 != 0},
                    "harness.segments", "replay_segments_case", sample_fn=sample_fn)
     for (module, cfg, ov, modes, rots, walks, depth) in WALKS[tier]:
         run_config(chk, module, cfg, ov,
-                   lambda rec, i: {"rec": rec, "seed": chk.seed, "modes": modes, "rot": (i + chk.seed) % rots},
+                   lambda rec, i: {"rec": rec, "seed": chk.seed, "modes": modes, "rot": (i + chk.seed) % rots,
+                                   "daqmx": True},
                    "harness.segments", "replay_segments_case", sample_fn=sample_fn, simulate=walks, depth=depth,
                    expect_all_states=False, workers=(1 if walks == 1 else 16),
                    label="%s %s simulate %d walks of depth %d" % (cfg, ov, walks, depth))
